@@ -15,7 +15,7 @@ RULE = ("decoders: 12 unmarshall_datain (INQUIRY standard and every VPD page, MO
         "(<= 200 bytes) and all-00 / all-FF / 00..FF-ramp buffers of every length 0..64. Deviations: every byte position x all 256 values "
         "(first 48 bytes; {00,01,7F,80,FF} beyond); every pair of positions among the first 12 bytes (thorough: 24) x {00,01,7F,80,FF}^2; every "
         "truncation length. buffers of 65560 and 70001 bytes (00 / FF, long well-formed lists for GET LBA STATUS, REPORT LUNS, READ KEYS, VPD pages of FFFCh bytes) with header corruptions. Budget: 2000 + 1000 x len(buffer) (300 per byte beyond 4 KiB) traced source lines inside /repo/pyscsi; exceeding it is the violation. "
-        "Non-trivial = buffer differs from the well-formed base; distinct = distinct (decoder, buffer).")
+        "Facade level: 6 methods x 10 endless device behaviours (UNIT ATTENTION alternating / never twice the same, BUSY, NOT READY, TASK SET FULL, RESERVATION CONFLICT, ACA ACTIVE, CHECK CONDITION without sense, deferred errors, GOOD with ever-changing garbage) x both transports: each call ends within 16 submissions and 400 000 lines. Non-trivial = buffer differs from the well-formed base; distinct = distinct (decoder, buffer).")
 ASSUMPTIONS = [
     "work is measured in executed Python source lines inside the library (sys.settrace); the budget 2000 + 1000 lines per buffer byte is about 5x the worst terminating cost measured (READ ELEMENT STATUS with a hostile descriptor length of 1: ~200 lines per byte); evidence key max_lines_within_budget reports the measured maxima per decoder",
     "returning or raising any ordinary exception within the budget is acceptable; memory is not measured separately (the decoders only slice the buffer they are given)",
@@ -219,15 +219,90 @@ def base_buffers(name):
 NCHUNKS = {"inquiry_vpd": 6, "res": 3, "rtpg": 3, "inquiry_std": 3, "prfull": 3, "discinfo": 2, "reportpriority": 2, "mode6": 2, "mode10": 2}
 
 
+HOSTILE = ["ua_alternating", "ua_counting", "busy", "not_ready", "task_set_full", "reservation_conflict", "garbage_good", "cc_nosense", "deferred", "aca"]
+DEV_METHODS = ["testunitready", "inquiry", "readcapacity10", "read10", "modesense6", "reportluns"]
+MAX_SUBMISSIONS = 16
+
+
+def run_device(tr, behaviour, method):
+    """a hostile device that never stops answering the same way (or never the same way twice): every facade call - and the attach -
+    ends (returns or raises) within MAX_SUBMISSIONS commands and the line budget"""
+    from vf import harness
+    from vf.sim import install
+    from vf.sim.target import desc_sense, fixed_sense
+    install.ensure()
+    count = [0]
+    hostile = [False]
+
+    class TooMany(BaseException):
+        pass
+
+    rig = harness.Rig(tr, 0x00)
+    orig = rig.target.command
+
+    def command(cdb, dataout, datain, transport):
+        if not hostile[0]:
+            return orig(cdb, dataout, datain, transport)
+        count[0] += 1
+        n = count[0]
+        if n > MAX_SUBMISSIONS:
+            raise TooMany()
+        if behaviour == "ua_alternating":
+            return 0x02, (fixed_sense(6, 0x29, 0x00) if n % 2 else fixed_sense(6, 0x2A, 0x01))
+        if behaviour == "ua_counting":
+            return 0x02, (fixed_sense(6, 0x29, n & 0x7F) if n % 2 else desc_sense(6, 0x2A, n & 0x7F))
+        if behaviour == "busy":
+            return 0x08, None
+        if behaviour == "not_ready":
+            return 0x02, fixed_sense(2, 0x04, 0x01)
+        if behaviour == "task_set_full":
+            return 0x28, None
+        if behaviour == "reservation_conflict":
+            return 0x18, None
+        if behaviour == "cc_nosense":
+            return 0x02, None
+        if behaviour == "deferred":
+            return 0x02, bytes([0x71, 0, 1, 0, 0, 0, 0, 10, 0, 0, 0, 0, 0x0C, n & 0xFF, 0, 0, 0, 0])
+        if behaviour == "aca":
+            return 0x30, None
+        if datain is not None and len(datain):
+            datain[:] = bytes((0xFF - i - n) & 0xFF for i in range(len(datain)))
+        return 0x00, None
+    rig.target.command = command
+    out = []
+    try:
+        s = rig.facade(512)
+        hostile[0] = True
+
+        def call():
+            from vf import facade as F
+            F.call(s, method)
+        over, lines = guarded(call, 400000)
+        if over or count[0] > MAX_SUBMISSIONS:
+            out.append(("device/%s/%s" % (behaviour, "too_many_submissions" if count[0] > MAX_SUBMISSIONS else "budget_exceeded"),
+                        "%s over %s against a device that answers '%s' for ever: still re-submitting after %d commands (%d source lines)"
+                        % (method, tr, behaviour, count[0], lines)))
+    except TooMany:
+        out.append(("device/%s/too_many_submissions" % behaviour, "%s over %s against a device that answers '%s' for ever: more than %d commands submitted for one call"
+                    % (method, tr, behaviour, MAX_SUBMISSIONS)))
+    finally:
+        hostile[0] = False
+        rig.close()
+    return out
+
+
 def partitions(tier):
     parts = []
     for n in decoders():
         k = NCHUNKS.get(n, 2 if n.startswith("readcd") else 1)
         parts += [[n, c, k] for c in range(k)]
+    parts += [["device", tr, 0] for tr in ("sgio", "iscsi")]
     return parts
 
 
 def run_case(case, obs=None):
+    if case[0] == "device":
+        return run_device(*case[1:])
     name, hexbuf = case
     buf = bytes.fromhex(hexbuf)
     fn = decoders()[name]
@@ -250,6 +325,22 @@ def replay(case):
 
 def run_partition(part, tier, seed):
     acc = Acc(seed)
+    if part[0] == "device":
+        for behaviour in HOSTILE:
+            for method in DEV_METHODS:
+                case = ["device", part[1], behaviour, method]
+                acc.evaluations += 1
+                acc.nontrivial.add(hash(tuple(case)))
+                try:
+                    v = run_case(case)
+                except Exception:
+                    import traceback
+                    v = [("harness_error", traceback.format_exc()[-600:])]
+                for k, w in v:
+                    acc.violation(k, w, case)
+                acc.outcomes.add(hash((tuple(case), tuple(k for k, _ in v))))
+        acc.samples.append((0, ["device", part[1], "(see rule)"]))
+        return acc
     name, chunk, nchunks = part
     fn = decoders()[name]
     span = bounds(tier)["pair_span"]
